@@ -284,6 +284,10 @@ class Gate:
             return False, None
         k = self.ret_kind(name)
         r = p.ret
+        if r[0] == "call" and r[1] != name and self.is_stage(r[1]) and self.ret_kind(r[1]) == k and k in ("result", "option", "bool"):
+            # the stage ends by handing over to another stage and returns its verdict: it succeeds when that one does, and
+            # what that one validates is validated last
+            return True, ("stage", r[1])
         if k == "result":
             return (r[0] == "agg" and r[2] == "Ok"), None
         if k == "option":
@@ -413,7 +417,9 @@ class Gate:
             if not okp:
                 continue
             tl = self.timeline(p, depth_summary=False)
-            if tailrole:
+            if isinstance(tailrole, tuple) and tailrole[0] == "stage":
+                tl.append((10 ** 9, "V", set(self.stage_validated(tailrole[1])), tailrole[1].rsplit("::", 1)[-1] + " as the returned value (validated inside)"))
+            elif tailrole:
                 tl.append((10 ** 9, "V", {tailrole}, "validator as the returned value"))
             ok_roles = set()
             for r in ROLES:
